@@ -23,11 +23,17 @@ import (
 	"time"
 )
 
-const (
-	VerifDir = "/verif"
-	SpecDir  = "/verif/spec"
-	TLAJars  = "/opt/veriftools/tla/tla2tools.jar:/opt/veriftools/tla/CommunityModules-deps.jar"
-)
+const TLAJars = "/opt/veriftools/tla/tla2tools.jar:/opt/veriftools/tla/CommunityModules-deps.jar"
+
+// VerifDir is the root of the verification tree (QV_ROOT, set by bin/check from its own location; /verif by default).
+var VerifDir = func() string {
+	if v := os.Getenv("QV_ROOT"); v != "" {
+		return v
+	}
+	return "/verif"
+}()
+
+var SpecDir = filepath.Join(VerifDir, "spec")
 
 // Broken is a failure of the machinery itself (exit 2), never a violation.
 type Broken struct{ Msg string }
